@@ -94,6 +94,11 @@ type presentRec struct {
 	Inp string `json:"inp"`
 	Via string `json:"via"` // marker: the input's marker literal is in the file; path: the path of the input's emitted copy is
 }
+type exactRec struct {
+	Out      string `json:"out"`
+	Inp      string `json:"inp"`
+	Expected int    `json:"expected"` // the bytes of the sections printed for inp in out (unminified output)
+}
 type markerRec struct {
 	Inp string `json:"inp"`
 	Len int    `json:"len"`
@@ -118,6 +123,7 @@ type record struct {
 	DynTargets []string     `json:"dyntargets"`
 	Present    []presentRec `json:"present"`
 	Markers    []markerRec  `json:"markers"`
+	Exact      []exactRec   `json:"exact"`
 	scen       scenario
 	files      map[string]string
 	optsStr    string
@@ -157,7 +163,8 @@ func materialise(s scenario, root string) world {
 		add("src/c.cjs", "/*! legal comment of c */\nmodule.exports = \""+mk("c")+"\"\n", mk("c"))
 		w.entries = []string{"src/a.js"}
 	case "splitting":
-		add("src/a.js", "import {s} from './s.js'\nexport const lazy = () => import('./lazy.js')\nconsole.log(\""+mk("a")+"\", s)\n", mk("a"))
+		add("src/a.js", "import {s} from './s.js'\nimport {lazy} from './m.js'\nexport const lazy2 = () => import('./lazy.js')\nconsole.log(\""+mk("a")+"\", s, lazy)\n", mk("a"))
+		add("src/m.js", "export const lazy = () => [import('./lazy.js'), \""+mk("m")+"\"]\n", mk("m"))
 		add("src/b.js", "import {s} from './s.js'\nconsole.log(\""+mk("b")+"\", s)\nexport default 2\n", mk("b"))
 		add("src/s.js", "import {s2} from './s2.js'\n"+sjs+"console.log(s2)\n", mk("s"))
 		add("src/s2.js", "export const s2 = \""+mk("s2")+"\"\n", mk("s2"))
@@ -357,7 +364,7 @@ func build(s scenario, idx int, root string) *built {
 	rc := &record{ID: idx, ESM: s.Format == "esm", scen: s, files: w.files, metafile: res.Metafile,
 		Emitted: []emitted{}, Outputs: []outRec{}, OImports: []impRec{}, PImports: []impRec{}, OExports: []expRec{}, PExports: []expRec{},
 		OInputs: []contribRec{}, Inputs: []inputRec{}, IImports: []inImpRec{}, SImports: []srcImpRec{}, Read: []string{}, Sizes: []sizeRec{},
-		Entries: []string{}, DynTargets: []string{}, Present: []presentRec{}, Markers: []markerRec{}}
+		Entries: []string{}, DynTargets: []string{}, Present: []presentRec{}, Markers: []markerRec{}, Exact: []exactRec{}}
 	rc.optsStr = fmt.Sprintf("Outdir=%s EntryNames=%q ChunkNames=%q AssetNames=%q PublicPath=%q Format=%s Splitting=%v Sourcemap=%s LegalComments=%s Minify=%v External=%v Inject=%v entries=%v stdin=%v",
 		o.Outdir, o.EntryNames, o.ChunkNames, o.AssetNames, o.PublicPath, s.Format, s.Splitting, s.SM, s.Legal, s.Minify, w.external, w.inject, w.entries, w.stdin != nil)
 	b.rc = rc
@@ -451,6 +458,23 @@ func build(s scenario, idx int, root string) *built {
 	for _, in := range sortedKeys(w.markers) {
 		rc.Markers = append(rc.Markers, markerRec{Inp: in, Len: len(w.markers[in])})
 	}
+	// the exact bytes of the sections of each input in unminified code (see sections)
+	if !s.Minify {
+		for _, t := range b.texts {
+			if t.kind == "other" {
+				continue
+			}
+			for in, n := range sections(t.text, t.kind, inputSet) {
+				rc.Exact = append(rc.Exact, exactRec{Out: t.path, Inp: in, Expected: n})
+			}
+		}
+		sort.Slice(rc.Exact, func(i, j int) bool {
+			if rc.Exact[i].Out != rc.Exact[j].Out {
+				return rc.Exact[i].Out < rc.Exact[j].Out
+			}
+			return rc.Exact[i].Inp < rc.Exact[j].Inp
+		})
+	}
 	// which markers are present in which emitted code/asset file
 	assetOut := map[string]string{} // asset input -> base name of its emitted file
 	for _, p := range sortedKeys(mf.Outputs) {
@@ -475,6 +499,60 @@ func build(s scenario, idx int, root string) *built {
 		}
 	}
 	return b
+}
+
+// sections measures, in an unminified output, the text the linker printed for
+// each input: the linker writes "<indent>// <path>\n" (CSS: "/* <path> */\n")
+// before the code of an input and one "\n" between the code of one input and
+// the comment of the next.  Only inputs all of whose sections are followed by
+// another path comment are reported (the end of the last section of a chunk
+// runs into text printed by the linker itself and cannot be delimited).
+func sections(text, kind string, inputs map[string]bool) map[string]int {
+	lines := strings.SplitAfter(text, "\n")
+	// ordinary comments do not survive bundling, so every "// x" line (CSS: "/* x */") was
+	// written by the linker; one that does not name an input (the stub of a glob import, ...)
+	// starts a section that belongs to no input
+	header := func(l string) string {
+		t := strings.TrimRight(l, "\n")
+		t = strings.TrimLeft(t, " \t")
+		var p string
+		if kind == "js" && strings.HasPrefix(t, "// ") {
+			p = t[3:]
+		} else if kind == "css" && strings.HasPrefix(t, "/* ") && strings.HasSuffix(t, " */") {
+			p = t[3 : len(t)-3]
+		} else {
+			return ""
+		}
+		if inputs[p] {
+			return p
+		}
+		return "\x00none"
+	}
+	total := map[string]int{}
+	open := map[string]bool{} // has a section that is not delimited
+	cur, n := "", 0
+	for i, l := range lines {
+		if h := header(l); h != "" {
+			if cur != "" {
+				// the separator line before this comment is not part of the section
+				if i > 0 && lines[i-1] == "\n" {
+					n--
+				}
+				total[cur] += n
+			}
+			cur, n = h, 0
+			continue
+		}
+		n += len(l)
+	}
+	if cur != "" {
+		open[cur] = true
+	}
+	for k := range open {
+		delete(total, k)
+	}
+	delete(total, "\x00none")
+	return total
 }
 
 // ---------- re-parsing (node/imports_of.js) ----------
